@@ -32,7 +32,8 @@ pub struct Cfg {
     /// block (every block stays pending), 8 emission order with hostile copies of the third object
     /// packet injected after the second one (each payload-id byte in turn set to 0xFF), 9 every object packet,
     /// then malformed copies of the last one (cut inside / right before the FEC payload id, codepoint of another
-    /// scheme with a longer payload id), then the FDT: everything waits in the cache and is replayed at once
+    /// scheme with a longer payload id), then the FDT: everything waits in the cache and is replayed at once, 10 the first object packet, then the
+    /// FDT, then the rest (the OTI is learnt from the packet's EXT_FTI, the FDT attaches afterwards)
     pub order: u8,
     /// receiver configured with a 10-byte object cache (a third pending block is refused)
     #[serde(default)]
@@ -130,6 +131,7 @@ pub fn prepare(c: &Cfg) -> Result<Prepared, String> {
     }
     let seq: Vec<usize> = match c.order {
         9 => obj.iter().chain(hostile.iter()).chain(fdt.iter()).cloned().collect(),
+        10 => obj.iter().take(1).chain(fdt.iter()).chain(obj.iter().skip(1)).cloned().collect(),
         7 => (0..n).filter(|i| !(rec.info[*i].toi == toi && rec.info[*i].esi == 0)).collect(),
         8 => {
             let cut = obj.get(1).map(|i| i + 1).unwrap_or(n);
@@ -314,6 +316,11 @@ fn configs(thorough: bool) -> Vec<Cfg> {
         (Scheme::NoCode, 4, 5, 0, 40, 3),
         (Scheme::NoCode, 4, 3, 0, 70, 1),
         (Scheme::Rs28, 4, 5, 1, 45, 2),
+        // RaptorQ objects of several blocks whose length leaves a remainder against Z * T (the receiver has to rebuild
+        // the block structure from (F, T, Z) when the FTI comes in-band)
+        (Scheme::RaptorQ, 16, 4, 1, 97, 0),
+        (Scheme::RaptorQ, 4, 2, 1, 21, 0),
+        (Scheme::Raptor, 4, 4, 1, 31, 0),
     ];
     for (scheme, e, b, parity, len, cenc) in base {
         for inband_fti in [true, false] {
@@ -335,7 +342,7 @@ fn configs(thorough: bool) -> Vec<Cfg> {
                             v.push(Cfg { scheme, e, b, parity, len, cenc, inband_fti, count, md5, order, crafted_fdt: false, receive_twice: false, small_cache: false, wrong_md5: false, split_cenc: true });
                         }
                     }
-                    for order in 0..7u8 {
+                    for order in (0..7u8).chain([10u8]) {
                         v.push(Cfg { scheme, e, b, parity, len, cenc, inband_fti, count, md5, order, crafted_fdt: false, receive_twice: false, small_cache: false, wrong_md5: false, split_cenc: false });
                         if count == 2 && order <= 2 {
                             v.push(Cfg { scheme, e, b, parity, len, cenc, inband_fti, count, md5, order, crafted_fdt: false, receive_twice: true, small_cache: false, wrong_md5: false, split_cenc: false });
